@@ -238,3 +238,37 @@ def cell_term(v, off, size):
     if c is None or c[0] != size:
         return None
     return c[1]
+
+
+
+def const_value(t):
+    """value of a floating-point term built from constants only (products / sums / negations of literals left symbolic by the interpreter)"""
+    import terms as tm
+    if tm.is_const(t):
+        try:
+            return tm.f_of(t)
+        except Exception:
+            return None
+    if t.op in ('fmul', 'fadd') and all(hasattr(x, 'op') for x in t.args):
+        vs = [const_value(x) for x in t.args]
+        if all(v is not None for v in vs):
+            out = vs[0]
+            for v in vs[1:]:
+                out = out * v if t.op == 'fmul' else out + v
+            return out
+    if t.op == 'fneg':
+        v = const_value(t.args[0])
+        return None if v is None else -v
+    return None
+
+
+def const_width(t):
+    import terms as tm
+    if tm.is_const(t):
+        return tm.csize(t)
+    for x in t.args:
+        if hasattr(x, 'op'):
+            w = const_width(x)
+            if w:
+                return w
+    return None
